@@ -179,6 +179,16 @@ func (e *exec) produce(kind string) (pkt []byte, rx int, sender int, ok bool) {
 		B.SendMessageToIndex(header.Control, 0, B.PrimaryIndex(A.Vpn), b)
 		p, ok := last()
 		return p, nA, nB, ok
+	case "rclose":
+		// X closes its end-to-end tunnel with A: the CloseTunnel travels X -> R -> A inside relay frames
+		X.SendCloseTunnel(X.PrimaryIndex(A.Vpn))
+		p, ok := last()
+		if !ok {
+			return nil, 0, 0, false
+		}
+		net.Nodes[nR].Inject(X.Udp, p)
+		p, ok = last()
+		return p, nA, nR, ok
 	case "rmsg", "fwd":
 		// X -> (R) -> A: the datagram X emits is addressed to R
 		plain := relaynet.IPv4Packet(X.Vpn, A.Vpn, 1000, 2000, []byte("ping-through-relay"))
@@ -367,7 +377,7 @@ func newExec(t *testing.T) func([]string) string {
 				return "no-packet"
 			}
 			from := e.src(src, sender)
-			if scope == "lie" && (kind == "rmsg") {
+			if scope == "lie" && (kind == "rmsg" || kind == "rclose") {
 				// the relay R rewrites the relayed payload and seals it again with its own tunnel key
 				if len(pkt) < 48 {
 					return "no-packet"
@@ -472,7 +482,7 @@ func newExec(t *testing.T) func([]string) string {
 	}
 }
 
-var kinds = []string{"msg", "msg", "testreq", "testrep", "ctrl", "rmsg", "rmsg", "fwd", "close"}
+var kinds = []string{"msg", "msg", "testreq", "testrep", "ctrl", "rmsg", "rmsg", "fwd", "close", "rclose"}
 var idxSyms = []string{"B", "R", "X", "rB", "relay", "zero", "unknown"}
 
 func genMut(r *hlib.Rand) string {
@@ -512,6 +522,9 @@ func gen(r *hlib.Rand, n int, tier, profile string, emit func(string, ...any)) {
 			kind := hlib.Pick(r, kinds...)
 			if kind == "close" && !r.Chance(1, 8) {
 				kind = "msg"
+			}
+			if kind == "rclose" && !r.Chance(1, 5) {
+				kind = "rmsg"
 			}
 			if profile == "C15" && r.Chance(2, 3) {
 				kind = hlib.Pick(r, "rmsg", "rmsg", "fwd")
